@@ -63,7 +63,8 @@ VARIABLES scn, pc, used, out, recorded
 vars == <<scn, pc, used, out, recorded>>
 
 \* scenarios are enumerated by nested quantifiers (TLC never builds the product set)
-HowKids == {<<"set", "explicit">>, <<"callable", "thumbprint">>, <<"set", "thumbprint">>}
+\* kids: explicit strings / RFC 7638 thumbprints / explicit with the empty string among them (a kid is any string)
+HowKids == {<<"set", "explicit">>, <<"callable", "thumbprint">>, <<"set", "thumbprint">>, <<"set", "empty">>}
 Init ==
   /\ pc = "resolve" /\ used = 0 /\ out = "none" /\ recorded = "none"
   /\ \E q \in Sets, a \in Algs, ser \in Sers, hk \in HowKids :
